@@ -7,7 +7,7 @@
 From stdpp Require Import gmap list.
 From Coq Require Import NArith ZArith.
 From VFS Require Import Core.Types Core.Prog Core.Calls Base.MemFS Base.Handles Base.Store Layer.VfsPath Layer.Overlay
-  Proofs.MemProofs Proofs.OvlProofs Proofs.OvlList Proofs.OvlLife.
+  Proofs.MemProofs Proofs.OvlProofs Proofs.OvlList Proofs.OvlLife Proofs.CopyFile Proofs.OvlAppend.
 
 Notation mstate := (gmap (list (list N)) memfile).
 
@@ -90,6 +90,19 @@ Theorem C09_remove_dir_with_lower_children : forall lg ft (s0 s1 : mstate) hs (p
   run bhandler (ovl_impl (v0, []) [(v1, [])] (CRemoveDir p)) (mstore2 s0 s1 hs lg ft) = (mstore2 s0 s1 hs lg ft, fail EOther).
 Proof. exact remove_dir_with_lower_children. Qed.
 
+(** appending continues the lower layer's bytes: append_file on a top-level file that exists only in
+    the lower layer copies it up (a stream copy between the two layers) and hands out a write handle
+    whose buffer holds the lower file's bytes with the cursor at their end; the lower layer keeps
+    its bytes (its access time is stamped by the open - finding D20) *)
+Theorem C09_append_continues_lower_bytes : forall lg ft (s0 s1 : mstate) hs (n : list N) f,
+  wf s0 -> s0 !! whiteout_path (v0, []) [] = None -> s0 !! whiteout_path (v0, []) [n] = None ->
+  s0 !! [n] = None -> s1 !! [n] = Some f -> f_type f = File ->
+  run bhandler (ovl_impl (v0, []) [(v1, [])] (CAppendFile [n])) (mstore2 s0 s1 hs lg ft) =
+  (mstore2 (<[[n] := fresh_file (f_content f)]> s0) (<[[n] := touched f]> s1)
+           (hs ++ [HClosed; HClosed; HMemWriter 0 [n] (f_content f) (Z.of_nat (length (f_content f)))]) lg ft,
+   Ok (length hs + 2)%nat).
+Proof. exact append_continues_lower_bytes. Qed.
+
 Example C09_example :
   let f0 := mkMemFile File [1%N] TAuto None None in
   let f1 := mkMemFile File [2%N] TAuto None None in
@@ -110,3 +123,4 @@ Print Assumptions C09_bytes_from_lower.
 Print Assumptions C09_listing_merges_layers.
 Print Assumptions C09_create_over_lower_entry.
 Print Assumptions C09_remove_dir_with_lower_children.
+Print Assumptions C09_append_continues_lower_bytes.
